@@ -289,6 +289,8 @@ def decode_object(model, st: State, heap: dict, r: int, hint: Optional[T.Ty], de
             el = z3.Select(z3.Select(heap["lel"], r), i)
             out["$list"].append(decode_deep(model, st, heap, el, ety, depth + 1, seen))
         out["$len"] = n
+        if n > 12:  # long list: keep the tail too (x[-1] is a common read); the replay pads the middle
+            out["$tail"] = [decode_deep(model, st, heap, z3.Select(z3.Select(heap["lel"], r), i), ety, depth + 1, seen) for i in (n - 2, n - 1)]
         return out
     if k in ("dict", "set") or cid in (-2, -3):
         n = model.eval(z3.Select(heap["dsz"], r), model_completion=True) if "dsz" in heap else None
@@ -413,10 +415,13 @@ def verify_fuc(key: str, cfg: dict) -> FucResult:
         import hashlib
         res.sha = hashlib.sha256(seg.encode()).hexdigest()
         res.lines = (node.lineno, getattr(node, "end_lineno", node.lineno))
-        work = [[]]
+        work = [list(cfg.get("start_trace", []))]
+        prefixes = []
         timeout_ms = cfg.get("timeout_ms", 10000)
         first = True
         budget = cfg.get("fuc_budget_s", 240)
+        if con.budget_s and not cfg.get("ground"):
+            budget = con.budget_s
         while work:
             if time.time() - t0 > budget:
                 raise Refuse(f"time budget of {budget}s for one function exceeded after {res.paths} paths (split the function or simplify its contract)")
@@ -424,6 +429,8 @@ def verify_fuc(key: str, cfg: dict) -> FucResult:
             pcfg = dict(cfg)
             pcfg["contract"] = con
             pcfg["check_vacuity"] = first
+            pcfg["_prefixes"] = prefixes
+            pcfg["_cut"] = False
             st = State(trace, res.qualname, pcfg)
             st.path_id = "".join(str(x) for x in trace) or "-"
             I = Interp(st)
@@ -438,6 +445,10 @@ def verify_fuc(key: str, cfg: dict) -> FucResult:
             first = False
             st.path_id = "".join(str(x) for x in st.trace) or "-"
             work.extend(st.alternatives)
+            if cfg.get("enumerate_depth") is not None:
+                if not pcfg["_cut"]:
+                    prefixes.append(list(st.trace))  # a complete path shorter than the split depth
+                continue
             res.paths += 1
             if res.paths > con.max_paths:
                 raise Refuse(f"more than {con.max_paths} paths in {key}")
@@ -463,4 +474,5 @@ def verify_fuc(key: str, cfg: dict) -> FucResult:
     except Exception as e:  # engine crash
         res.error = f"engine crash: {type(e).__name__}: {e}\n{traceback.format_exc(limit=8)}"
     res.secs = time.time() - t0
+    res.prefixes = prefixes if 'prefixes' in dir() else []
     return res
